@@ -611,6 +611,8 @@ class Gen:
                 [{'t': 'reserve', 'e': w}, {'t': 'pad', 'e': 2}],
                 [{'t': 'segment', 'e': 5}],
                 [{'t': 'reserve', 'e': 3}],
+                [{'t': 'reserve', 'e': -w}],
+                [{'t': 'reserve', 'e': -3}],
                 [{'t': 'pad', 'e': ('n', 'never_declared')}],
                 [{'t': 'segment', 'e': ('op', '+', [('n', 'never_declared'), 1])}],
                 [{'t': 'reserve', 'e': ('n', 'never_declared')}],
